@@ -1,3 +1,99 @@
-import GambitV.Spec.Taxonomy
+import GambitV.Lemmas.Taxonomy
+
+/-!
+# C09 — the closest-genomes list is the unique (distance, reference order)-sorted prefix
+
+Statements only (helper lemmas live in `Lemmas/Taxonomy.lean`).  All theorems quantify over
+arbitrary distance lists and arbitrary `N`.
+-/
 namespace GambitV.C09
+open GambitV
+
+/-- 1. The stable argsort is a permutation of all reference indices. -/
+theorem stableArgsort_perm (ds : List Nat) : (stableArgsort ds).Perm (List.range ds.length) :=
+  foldr_insert_perm ds _
+
+/-- 2. It is strictly increasing in (distance, index). -/
+theorem stableArgsort_sorted (ds : List Nat) :
+    (stableArgsort ds).Pairwise (fun i j => keyLt ds i j = true) :=
+  foldr_insert_sorted ds _ List.pairwise_lt_range
+
+/-- 3. The list has `min N n` entries. -/
+theorem closestList_length (ds : List Nat) (N : Nat) : (closestList ds N).length = min N ds.length := by
+  unfold closestList
+  rw [List.length_take, (stableArgsort_perm ds).length_eq, List.length_range]
+
+/-- 4. The list produced meets the specification. -/
+theorem closestList_ok (ds : List Nat) (N : Nat) : closestOk ds N (closestList ds N) = true := by
+  rw [closestOk_iff]
+  have hperm := stableArgsort_perm ds
+  have hsort := stableArgsort_sorted ds
+  refine ⟨closestList_length ds N, ?_, ?_, ?_⟩
+  · intro i hi
+    have : i ∈ stableArgsort ds := List.mem_of_mem_take hi
+    simpa using hperm.mem_iff.mp this
+  · exact List.Pairwise.sublist (List.take_sublist N _) hsort
+  · intro j hj
+    have hmem : j ∈ stableArgsort ds := hperm.mem_iff.mpr (by simpa using hj)
+    rw [← List.take_append_drop N (stableArgsort ds)] at hmem hsort
+    rcases List.mem_append.mp hmem with h | h
+    · exact Or.inl h
+    · right
+      intro i hi
+      exact (List.pairwise_append.mp hsort).2.2 i hi j h
+
+/-- 5. The specification determines the list: any correct stable sort, on any CPU, with any thread
+count or chunk size, yields exactly this list. -/
+theorem closestOk_unique (ds : List Nat) (N : Nat) (L : List Nat) (h : closestOk ds N L = true) :
+    L = closestList ds N := by
+  obtain ⟨h1, h2, h3, h4⟩ := (closestOk_iff ds N L).mp h
+  obtain ⟨g1, g2, g3, g4⟩ := (closestOk_iff ds N _).mp (closestList_ok ds N)
+  exact sorted_closed_unique ds L (closestList ds N) (fun j => j < ds.length) (h1.trans g1.symm)
+    h2 g2 h3 g3 h4 g4
+
+/-- 6. The first entry of the list is the closest genome of `classify` (`np.argmin`). -/
+theorem closest_head_eq_argmin (ds : List Nat) (N : Nat) (h : ds ≠ []) (hN : 0 < N) :
+    (closestList ds N).head? = some (argminFirst ds) := by
+  obtain ⟨hc, hmin, hfirst⟩ := argminFirst_getD_spec ds h
+  have hperm := stableArgsort_perm ds
+  have hsort := stableArgsort_sorted ds
+  have hcmem : argminFirst ds ∈ stableArgsort ds := hperm.mem_iff.mpr (by simpa using hc)
+  unfold closestList
+  cases hS : stableArgsort ds with
+  | nil => simp [hS] at hcmem
+  | cons a rest =>
+    cases N with
+    | zero => omega
+    | succ N =>
+      simp only [List.take_succ_cons, List.head?_cons, Option.some.injEq]
+      rw [hS] at hcmem hsort hperm
+      have ha : a < ds.length := by simpa using hperm.mem_iff.mp List.mem_cons_self
+      apply Classical.byContradiction
+      intro hne
+      rcases List.mem_cons.mp hcmem with heq | hrest
+      · exact hne heq.symm
+      · have hk1 : keyLt ds a (argminFirst ds) = true := (List.pairwise_cons.mp hsort).1 _ hrest
+        have hge : ds.getD (argminFirst ds) 0 ≤ ds.getD a 0 := by
+          have : ds.getD a 0 ∈ ds := by
+            simp [List.getD_eq_getElem?_getD, ha]
+          exact hmin _ this
+        have hk2 : keyLt ds (argminFirst ds) a = true := by
+          rcases Nat.lt_or_ge a (argminFirst ds) with hlt | hge'
+          · exact keyLt_of_lt (hfirst a hlt)
+          · exact keyLt_of_le_of_lt hge (by omega)
+        have := keyLt_asymm hk1
+        simp [hk2] at this
+
+/-! ### 7. Non-vacuity -/
+
+example : closestList [2, 1, 0, 0, 4] 3 = [2, 3, 1] := by decide
+example : closestOk [2, 1, 0, 0, 4] 3 (closestList [2, 1, 0, 0, 4] 3) = true := by decide
+example : stableArgsort [2, 1, 0, 0, 4] = [2, 3, 1, 0, 4] := by decide
+/-- the specification rejects the unstable order of the tie and a wrong selection -/
+example : closestOk [2, 1, 0, 0, 4] 3 [3, 2, 1] = false := by decide
+example : closestOk [2, 1, 0, 0, 4] 3 [2, 3, 0] = false := by decide
+/-- `N` larger than the number of references: the whole sorted list -/
+example : closestList [5, 5, 1] 10 = [2, 0, 1] := by decide
+example : (closestList [2, 1, 0, 0, 4] 3).head? = some (argminFirst [2, 1, 0, 0, 4]) := by decide
+
 end GambitV.C09
